@@ -17,7 +17,7 @@ LEVEL_NOTE = "Trusted: scipy spherical Bessel functions and the ~60-line referen
 TECHNIQUE = "runtime monitoring: differential oracle between independent solvers and an independent reference series on recorded executions; metamorphic layered-sphere identities"
 RULE = ("smat: (m,x) with m in {real 1.05-2.5, <1, absorbing up to Im 0.5, 1+-1e-3}, x log-uniform 1e-3..900 plus decades, 40 "
         "angles; field: random points at r >= 1.05a up to far field, random polarization, 4 option combinations; ms1: "
-        "one-sphere clusters x<=18, meth 0/1, default and tight tolerances; layered: 1-4 layers x 5 identity variants. "
+        "one-sphere clusters x<=18, meth 0/1, default and tight tolerances; layered: 1-4 layers x 5 identity variants x size regimes {mid, Rayleigh, large, tiny core inside a strongly absorbing layer}. "
         "non-trivial = comparison executed and not skipped as ill-conditioned; distinct by rounded case JSON")
 ASSUMPTIONS = ["Multisphere is compared only for per-sphere size parameter <= 18 (its single-sphere expansion order is clamped at 32)",
                "pure-Python Mie series compared for real m and x <= 300 (its documented use)"]
